@@ -193,9 +193,11 @@ TRUE, FALSE, NONE = Const(True), Const(False), Const(None)
 
 
 class State:
-    def __init__(self, env: Optional[Dict[str, AV]] = None, heap: Optional[Dict[int, Dict[str, Any]]] = None):
+    def __init__(self, env: Optional[Dict[str, AV]] = None, heap: Optional[Dict[int, Dict[str, Any]]] = None,
+                 facts: Optional[List[Tuple['Test', bool]]] = None):
         self.env = env if env is not None else {}
         self.heap = heap if heap is not None else {}
+        self.facts = facts if facts is not None else []     # guards already decided on this path
 
     def copy(self) -> 'State':
         heap = {}
@@ -204,7 +206,13 @@ class State:
             if '$items' in d:
                 d['$items'] = list(d['$items'])
             heap[oid] = d
-        return State(dict(self.env), heap)
+        return State(dict(self.env), heap, list(self.facts))
+
+    def fact(self, test: 'Test') -> Optional[bool]:
+        for t, pol in self.facts:
+            if t.same(test):
+                return pol
+        return None
 
 
 class Leaf:
@@ -332,8 +340,8 @@ class Evaluator:
         for v in vals:
             if isinstance(v, Cond):
                 t = v.test
-                a = self.lift(f, *[self.restrict(x, t, True) for x in vals])
-                b = self.lift(f, *[self.restrict(x, t, False) for x in vals])
+                a = self.restrict(self.lift(f, *[self.restrict(x, t, True) for x in vals]), t, True)
+                b = self.restrict(self.lift(f, *[self.restrict(x, t, False) for x in vals]), t, False)
                 return self.mk_cond(t, a, b)
         return f(*vals)
 
@@ -341,7 +349,16 @@ class Evaluator:
     # truth
     # ----------------------------------------------------------------------------------
     def truth(self, v: AV, st: State):
-        """-> True | False | Test  (Cond values must be split by the caller through lift)."""
+        """-> True | False | Test  (Cond values must be split by the caller through lift).
+        A guard already decided on the current path (same normal form) folds to that decision."""
+        r = self._truth(v, st)
+        if isinstance(r, Test):
+            known = st.fact(r)
+            if known is not None:
+                return known
+        return r
+
+    def _truth(self, v: AV, st: State):
         if isinstance(v, Const):
             return bool(v.value)
         if isinstance(v, Scalar):
@@ -868,14 +885,14 @@ class Evaluator:
         if its is None:
             if isinstance(it, SymObj):
                 # element-wise map over an unknown sequence: keep it symbolic through a generic element
-                sub = State(dict(st.env), st.heap)
+                sub = State(dict(st.env), st.heap, list(st.facts))
                 self.assign(gen.target, SymObj(f'{it.path}[*]'), sub, ctx)
                 elt = self.eval(node.elt, sub, ctx)
                 return SymObj(f'[{self.describe(elt)} for {it.path}]')
             raise Undecided('comprehension over unknown iterable')
         out = []
         for x in its:
-            sub = State(dict(st.env), st.heap)
+            sub = State(dict(st.env), st.heap, list(st.facts))
             self.assign(gen.target, x, sub, ctx)
             out.append(self.eval(node.elt, sub, ctx))
         return self.new_list(st, out)
@@ -951,7 +968,7 @@ class Evaluator:
 
     def call_lambda(self, fv: FuncRef, args, kwargs, st: State, ctx: Ctx) -> AV:
         lam = fv.lam
-        sub = State({}, st.heap)
+        sub = State({}, st.heap, list(st.facts))
         names = [a.arg for a in lam.args.args]
         for n, v in zip(names, args):
             sub.env[n] = v
@@ -1034,7 +1051,7 @@ class Evaluator:
         else:
             env = self.bind(func, args, kwargs, st, ctx, skip_self=False)
         self.calls_inlined.append(func.qualname)
-        sub = State(env, st.heap)
+        sub = State(env, st.heap, list(st.facts))
         tree = self.exec_block(func.node.body, sub, Ctx(func.module, func, closure if closure is not None else
                                                          (ctx.closure if func.outer is not None else None),
                                                          ctx.depth + 1))
@@ -1376,8 +1393,11 @@ class Evaluator:
 
     def split_on_raise(self, r: AV, s, rest, st: State, ctx: Ctx):
         if isinstance(r, Cond):
-            return Branch(r.test, self.split_on_raise(r.a, s, rest, st.copy(), ctx),
-                          self.split_on_raise(r.b, s, rest, st.copy(), ctx))
+            s1, s2 = st.copy(), st.copy()
+            self.assume(s1, r.test, True)
+            self.assume(s2, r.test, False)
+            return Branch(r.test, self.split_on_raise(r.a, s, rest, s1, ctx),
+                          self.split_on_raise(r.b, s, rest, s2, ctx))
         if isinstance(r, Raised):
             return Leaf('raise', r, st, s)
         return self.exec_block(rest, st, ctx)
@@ -1386,9 +1406,15 @@ class Evaluator:
         if isinstance(tv, Raised):
             return Leaf('raise', tv, st)
         if isinstance(tv, Cond):
+            known = st.fact(tv.test)
+            if known is not None:
+                return self.branch(self.restrict(tv.a if known else tv.b, tv.test, known), body, orelse, rest, st, ctx)
+            s1, s2 = st.copy(), st.copy()
+            self.assume(s1, tv.test, True)
+            self.assume(s2, tv.test, False)
             return Branch(tv.test,
-                          self.branch(self.restrict(tv.a, tv.test, True), body, orelse, rest, st.copy(), ctx),
-                          self.branch(self.restrict(tv.b, tv.test, False), body, orelse, rest, st.copy(), ctx))
+                          self.branch(self.restrict(tv.a, tv.test, True), body, orelse, rest, s1, ctx),
+                          self.branch(self.restrict(tv.b, tv.test, False), body, orelse, rest, s2, ctx))
         tr = self.truth(tv, st)
         if tr is True:
             return self.exec_block(list(body) + rest, st, ctx)
@@ -1402,6 +1428,7 @@ class Evaluator:
 
     def assume(self, st: State, test: Test, pol: bool) -> None:
         """Inside a branch, values guarded by the same test collapse to the branch's side."""
+        st.facts.append((test, pol))
         for k, v in list(st.env.items()):
             if isinstance(v, Cond):
                 st.env[k] = self.restrict(v, test, pol)
